@@ -27,13 +27,9 @@ Definition nontrivial_case (inp : list Z) : bool :=
   let obs := observe j0 ops in
   negb (Nat.eqb (length (flat_map o_effs obs)) 0) && Nat.leb 2 (changes j0 obs).
 
-(* 1 = the known finding "same-node check cached" (Spec.finding_code), 0 = anything else *)
-Definition finding_sig (inp obs : list Z) : Z :=
-  let '(j0, ops) := decode inp in
-  match parse_obs j0 (length ops) obs with
-  | Some o => finding_code j0 ops o
-  | None => 0
-  end.
+(* no known finding on the current tree: the same-node finding (Spec.finding_code, sig 1 of the
+   old variant) was repaired by commit 025e424, so a same-node eviction is a plain violation now *)
+Definition finding_sig (inp obs : list Z) : Z := 0.
 
 Require Extraction.
 Require Import ExtrOcamlBasic.
